@@ -61,6 +61,12 @@ Definition c06_holds (roots : list ctree) (o : observed) : bool :=
   ob_returned o && same_multiset (ob_called o) (all_ids roots) && same_multiset (ob_ins o) (all_ids roots) &&
   Nat.eqb (ob_late_calls o) 0 && Nat.eqb (ob_outstanding o) 0 && negb (ob_changed_after o) && Nat.eqb (ob_leaked o) 0.
 
+(* ... the same for plans the transition system does not speak of (two steps that deliver one key,
+   the later reply leaving nothing to stitch the dependents' results into): Execute returned, no
+   call was issued or still running afterwards, nothing is left behind, the response stays as it is *)
+Definition quiescent_return (o : observed) : bool :=
+  ob_returned o && Nat.eqb (ob_late_calls o) 0 && Nat.eqb (ob_outstanding o) 0 && negb (ob_changed_after o) && Nat.eqb (ob_leaked o) 0.
+
 (* C07 (protocol part): the error list holds exactly the failures that occurred *)
 Definition c07_errors_exact (roots : list ctree) (o : observed) : bool :=
   ob_returned o && same_multiset (ob_errs o) (all_failing roots).
